@@ -1,35 +1,37 @@
 // VK-REPLAY property=C15 job=dict harness=dict_merge_preserves_receiver
-// failing checks (solver): [["assertion failed: (iw == ix) == (w == x)", "hx/src/lib.rs:113:5 in function p_dict::dict_merge_preserves_receiver"]]
+// failing checks (solver): [["assertion failed: (iw == iy) == (w == y)", "hx/src/lib.rs:124:5 in function p_dict::dict_merge_preserves_receiver"]]
 // re-run natively against /repo (untransformed, real std containers): /verif/vk replay /verif/evidence/replay/C15-dict_merge_preserves_receiver.rs
 /// Test generated for harness `p_dict::dict_merge_preserves_receiver` 
 ///
-/// Check for `assertion`: "assertion failed: (iw == ix) == (w == x)"
+/// Check for `assertion`: "assertion failed: (iw == iy) == (w == y)"
 
 #[test]
-fn kani_concrete_playback_dict_merge_preserves_receiver_1508851798666095247() {
+fn kani_concrete_playback_dict_merge_preserves_receiver_11625604807295347622() {
     let concrete_vals: Vec<Vec<u8>> = vec![
-        // 18
-        vec![18],
-        // 64
-        vec![64],
-        // 30
-        vec![30],
-        // 64
-        vec![64],
-        // 64
-        vec![64],
-        // 33
-        vec![33],
         // 1
         vec![1],
+        // 23
+        vec![23],
+        // 1
+        vec![1],
+        // 23
+        vec![23],
+        // 1
+        vec![1],
+        // 23
+        vec![23],
         // 1
         vec![1],
         // 0
         vec![0],
-        // 64
-        vec![64],
-        // 64
-        vec![64],
+        // 1
+        vec![1],
+        // 0
+        vec![0],
+        // 31
+        vec![31],
+        // 10
+        vec![10],
         // 0
         vec![0],
     ];
